@@ -22,7 +22,7 @@ import (
 
 func init() {
 	register(&Prop{ID: "C04", Level: "model_checking", Run: runC04, Replay: replayC04,
-		Workers: func(e *Env) int { return minInt(cpus(), 16) }, CrashIsViolation: true,
+		Workers: func(e *Env) int { return minInt(cpus(), 16) }, Procs: 1, CrashIsViolation: true,
 		Budget: func(t string) time.Duration {
 			if t == "thorough" {
 				return 25 * time.Minute
@@ -376,7 +376,7 @@ func runC04(r *mc.Report, e *Env) {
 			if !e.Mine(unit) {
 				continue
 			}
-			b := &mc.BFS{Starts: []string{start}, MaxDepth: depth[start], Par: 1, Deadline: e.Deadline,
+			b := &mc.BFS{Starts: [][]string{{start}}, MaxDepth: depth[start], Par: 1, Deadline: e.Deadline,
 				Events: func([]string) []string { return evs },
 				Exec: func(h []string) (string, bool) {
 					if !e.Mark(func() string { b, _ := json.Marshal(c04Case{Node: node, Hist: h, Kind: "bfs"}); return string(b) }) {
